@@ -34,19 +34,26 @@ class References:
     if isinstance(item, gfapy.Line):
       item = item.name
     self._check_item_included(item)
-    self.items.delete(item)
+    self.items.remove(item)
     return None
 
   def _rm_item_from_connected_group(self, item):
-    if isinstance(item, str):
-      item = self._gfa.line(item)
-    self._check_item_included(item)
-    item._delete_reference(self, "sets")
-    self._delete_reference(item, "items")
+    items = self.get("items")
+    idx = None
+    for i, x in enumerate(items):
+      if x is item or (isinstance(item, str) and
+                       isinstance(x, gfapy.Line) and x.name == item):
+        idx = i
+        break
+    if idx is None:
+      self._check_item_included(None if isinstance(item, gfapy.Line)
+                                else item)
+    line = items.pop(idx)
+    self._forget_item(line)
     return None
 
   def _check_item_included(self, item):
-    if item not in self.items:
+    if item is None or item not in self.items:
       raise gfapy.NotFoundError(
         "Line: {}\n".format(self)+
         "Item: {}".format(repr(item))+
@@ -62,8 +69,11 @@ class References:
     return None
 
   def _add_item_to_connected_group(self, item, append = True):
-    self._add_reference(self.prepare_and_check_ref(item),
-                       "items", append = append)
+    line = self._prepare_and_check_ref(item)
+    if append:
+      self.get("items").append(line)
+    else:
+      self.get("items").insert(0, line)
     return None
 
   def _initialize_references(self):
